@@ -128,8 +128,9 @@ pg_run(Params *p)
 			(void) simnet_read_blocking(fd, buf, sizeof(buf), 1000000);
 		}
 		if (how == 1)
-			simnet_reset(fd);
-		close(fd);
+			simnet_reset(fd); // closes the descriptor as well
+		else
+			close(fd);
 		// the application keeps sending for a while: some of these writes meet the dead connection
 		sim_sleep_ns((uint64_t) W(1, 100) * 10000);
 		t.stop = 1;
